@@ -748,12 +748,17 @@ func (c *c11Case) hostileConn(idx int) {
 			// earlier hostile commands may have expunged everything: there should be something to FETCH
 			mk := c.nextTag()
 			lit := simpleMessage("c11-"+mk, rng)
-			_, _ = nc.Write([]byte(fmt.Sprintf("%s APPEND INBOX {%d+}\r\n%s\r\n", mk, len(lit), lit)))
+			_, _ = nc.Write([]byte(fmt.Sprintf("%s APPEND INBOX {%d}\r\n", mk, len(lit))))
 
 			for {
 				line, err := h.readLine(c11Watchdog)
 				if err != nil {
 					return
+				}
+
+				if strings.HasPrefix(line, "+") {
+					_, _ = nc.Write(append(append([]byte{}, lit...), '\r', '\n'))
+					continue
 				}
 
 				if strings.HasPrefix(line, mk+" ") {
